@@ -37,6 +37,7 @@ type LeaseScenario struct {
 	Hold10     int           `json:"hold10,omitempty"`      // unlockfail: the lock is held this many tenths of a lease before the failing Unlock
 	Applied    bool          `json:"applied,omitempty"`     // unlockfail: the Delete is applied and only its reply is lost
 	Blocking   bool          `json:"blocking,omitempty"`    // hold: the contender tries with a blocking LockWithCtx (a tenth of a lease) instead of TryLock
+	InFlight   int           `json:"in_flight,omitempty"`   // unlockfail: a renewal is in flight across the Unlock: 1 held before the storage applied it, 2 after
 	FailCreate []int         `json:"fail_create,omitempty"` // hold: the contender's k-th Create fails: k > 0 request lost, k < 0 the (-k)-th is applied and its reply lost
 	Locks      int           `json:"locks,omitempty"`       // multi: number of locks one process holds
 	Stagger10  int           `json:"stagger10,omitempty"`   // multi: tenths of a lease between the acquisitions
@@ -701,11 +702,28 @@ func runUnlockFail(s LeaseScenario) (info LeaseInfo, v *vstat.Violation, exact b
 	a, b := pa.NewLocker("lease"), pb.NewLocker("lease")
 	ctx := context.Background()
 	t0 := time.Now()
+	if s.InFlight > 0 {
+		fa.HoldNextCas(s.InFlight == 2)
+	}
 	a.Lock()
-	time.Sleep(L * time.Duration(s.Hold10) / 10)
+	if s.InFlight > 0 {
+		select {
+		case <-fa.Held:
+			info.HeldInFlight = true
+		case <-time.After(L/2 + 5*time.Second):
+			a.Unlock()
+			return info, vstat.V("lease:renewal-missing", "lease %v: no renewal call reached the storage within %v of Lock", L, time.Since(t0)), false
+		}
+	} else {
+		time.Sleep(L * time.Duration(s.Hold10) / 10)
+	}
 	fa.FailNextDelete(s.Applied)
 	a.Unlock()
 	unlockedAt := time.Now()
+	if s.InFlight > 0 {
+		close(fa.Resume)
+		time.Sleep(L / 20) // the one attempt that was already under way completes
+	}
 	info.InjectedFailures = 1
 	exp := unlockedAt
 	if r, err := inner.Get(ctx, leaseKey); err == nil && r.ExpiresAt != nil {
@@ -721,7 +739,7 @@ func runUnlockFail(s LeaseScenario) (info LeaseInfo, v *vstat.Violation, exact b
 				}
 			}
 		}
-		if succeeded > 0 {
+		if succeeded > 0 && s.InFlight == 0 {
 			return vstat.V("lease:renewal-succeeded-after-unlock", "lease %v: a renewal succeeded after Unlock (whose Delete failed) had returned; calls:%s", L, describeEvents(fa.Events(), t0))
 		}
 		if after > 1 {
